@@ -6,9 +6,11 @@ import (
 	"bytes"
 	"encoding/base32"
 	"encoding/hex"
+	"errors"
 	"fmt"
 	"sort"
 	"strings"
+	"time"
 
 	"github.com/miekg/dns"
 	"github.com/semihalev/sdns/internal/dnsutil"
@@ -19,7 +21,9 @@ import (
 var b32 = base32.HexEncoding.WithPadding(base32.NoPadding)
 
 // rec3 is one NSEC3 record on op lines:
-//   <ownerlabel>|<parent>|<next>|<hashlen>|<alg>|<flags>|<iter>|<salt>|<cls>|<types>
+//
+//	<ownerlabel>|<parent>|<next>|<hashlen>|<alg>|<flags>|<iter>|<salt>|<cls>|<types>
+//
 // ownerlabel: H<40 hex> (label = base32hex of that hash, case per 'u' suffix) or
 // X<label token> (a label that is not a 32-character base32hex string);
 // next: H<40 hex> or B<hex of the NextDomain text> (malformed);
@@ -425,6 +429,31 @@ func belowHashedCut(d name) string {
 	return ""
 }
 
+// faultWork: an NSEC3 work governor that shares one hash memo across the
+// validations of a request tree and can refuse its first hash (budget
+// exhausted / crypto gate saturated / cancellation), holding it long enough for
+// a sibling validation to be waiting for that digest.
+type faultWork struct {
+	memo      *dnssec.NSEC3HashMemo
+	failFirst bool
+	calls     int
+	entered   chan struct{}
+}
+
+func (w *faultWork) BeginNSEC3Hash() (func(), error) {
+	w.calls++
+	if w.failFirst && w.calls == 1 {
+		close(w.entered)
+		time.Sleep(30 * time.Millisecond) // goroutine hand-off only: lets the sibling reach the in-flight entry
+		return nil, errors.New("c02: hash budget exhausted")
+	}
+	return func() {}, nil
+}
+
+func (w *faultWork) NSEC3HashMemos() dnssec.NSEC3HashMemoAccess {
+	return dnssec.NSEC3HashMemoAccess{Read: w.memo, Write: w.memo}
+}
+
 func execNsec3(f []string) vlib.Res {
 	switch f[1] {
 	case "new":
@@ -548,6 +577,48 @@ func execNsec3(f []string) vlib.Res {
 			}
 		}
 		return res
+	case "memo":
+		// two validations of the same response in one request tree (shared NSEC3 hash
+		// memo); the first one's work governor refuses its first hash while the second
+		// is waiting for that very digest.  Whatever the interleaving, the second must
+		// end in a work error or in the sequential verdict — never in an acceptance the
+		// sequential run refuses.
+		signer, q, t, c := parseName(f[2]), parseName(f[3]), uint16(atoi(f[4])), uint16(atoi(f[5]))
+		nx := f[6] == "nx"
+		set := dnsutil.FilterRRsToZone(curRR3, signer.pres())
+		run := func(w dnssec.NSEC3Work) (bool, error) {
+			if nx {
+				return dnssec.VerifyNameErrorForZoneWithWork(question(q, t, c, dns.RcodeNameError), set, signer.pres(), w)
+			}
+			return dnssec.VerifyNODATAForZoneWithWork(question(q, t, c, dns.RcodeSuccess), set, signer.pres(), w)
+		}
+		seqSecure, seqErr := run(nil)
+		memo := dnssec.NewNSEC3HashMemo()
+		leader := &faultWork{memo: memo, failFirst: true, entered: make(chan struct{})}
+		follower := &faultWork{memo: memo}
+		done := make(chan struct{})
+		go func() { _, _ = run(leader); close(done) }()
+		var fSecure bool
+		var fErr error
+		select {
+		case <-leader.entered:
+			fSecure, fErr = run(follower)
+		case <-done: // the leader never hashed (rejected earlier): nothing to race
+			fSecure, fErr = run(follower)
+		}
+		<-done
+		impl := "seq=" + secStr(seqSecure, seqErr) + " faulted="
+		switch {
+		case fErr != nil && dnssec.IsWorkError(fErr):
+			impl += "workerror"
+		default:
+			impl += secStr(fSecure, fErr)
+		}
+		or := "ok"
+		if fErr == nil && (seqErr != nil || fSecure != seqSecure) {
+			or = "FAIL sig=nsec3/memo/failed-inflight-digest-used " + impl
+		}
+		return vlib.Res{Impl: "ok", Oracle: or, Tags: "nt,memo," + strings.ReplaceAll(impl, " ", ",")}
 	case "wild":
 		signer, sigs := parseName(f[2]), parseAnsSigs(f[3])
 		resp := wildResponse(sigs, signer)
@@ -679,6 +750,24 @@ func genNsec3Case(r *vlib.R, emit func(string)) int {
 					break
 				}
 			}
+		}
+	}
+	// shared-memo fault interleavings over the full ring: existing names, ENTs, absent names
+	if r.Chance(1, 4) {
+		emit("h set " + recs3Str(ring))
+		curSet3 = ring
+		cnt++
+		tr := z.tree()
+		for i := 0; i < 3; i++ {
+			q := vlib.Pick(r, tr)
+			if r.Chance(1, 3) {
+				q = q.child(genLabel(r))
+			}
+			if len(q.wire()) > 200 {
+				continue
+			}
+			emit(fmt.Sprintf("h memo %s %s %d 1 %s", z.apex, q, vlib.Pick(r, []int{1, 28, 43}), vlib.Pick(r, []string{"nx", "nx", "nd"})))
+			cnt++
 		}
 	}
 	// names below the zone's own (hashed) cuts, offered as "insecure delegations"
